@@ -728,6 +728,13 @@ def dsumOrig (A B O : Store α) : Res (Store α) := dsumGen B.nrows A B O
 /-- `directSum(A, B, O)` (`MatrixTools.h:1124-1163`) -/
 def dsum (A B O : Store α) : Res (Store α) := dsumGen B.ncols A B O
 
+/-- one block of the n-ary direct sum: `O(rk + i, ck + j) = Ak(i, j)`, then `rk += rows`, `ck += cols`
+(`MatrixTools.h:1191-1203`) -/
+def dsumNStep (st : Store α × Nat × Nat) (Ak : Store α) : Res (Store α × Nat × Nat) :=
+  match fillBlock st.1 st.2.1 st.2.2 Ak.nrows Ak.ncols (fun i j => Ak.get i j) with
+  | .ok O2 => .ok (O2, st.2.1 + Ak.nrows, st.2.2 + Ak.ncols)
+  | .error e => .error e
+
 /-- `directSum(vector<Matrix*>, O)` (`MatrixTools.h:1172-1205`) -/
 def dsumN (vA : List (Store α)) (O : Store α) : Res (Store α) :=
   let nr := vA.foldl (fun s M => s + M.nrows) 0
@@ -735,10 +742,7 @@ def dsumN (vA : List (Store α)) (O : Store α) : Res (Store α) :=
   match fill (O.resize nr nc) nr nc (fun _ _ => .ok zero) with
   | .error e => .error e
   | .ok O1 =>
-    match vA.foldlM (fun (st : Store α × Nat × Nat) Ak =>
-        match fillBlock st.1 st.2.1 st.2.2 Ak.nrows Ak.ncols (fun i j => Ak.get i j) with
-        | .ok O2 => (.ok (O2, st.2.1 + Ak.nrows, st.2.2 + Ak.ncols) : Res _)
-        | .error e => .error e) (O1, 0, 0) with
+    match vA.foldlM dsumNStep (O1, 0, 0) with
     | .ok st => .ok st.1
     | .error e => .error e
 
@@ -793,6 +797,10 @@ def look (t : Array (Array α)) : Fn α := fun i j =>
     | some x => x
     | none => zero)
   | none => zero
+/-- the n-ary direct sum, folded from the left: (rows so far, columns so far, entries so far) -/
+def dsumFold (acc : Nat × Nat × Fn α) (blocks : List (Nat × Nat × Fn α)) : Nat × Nat × Fn α :=
+  blocks.foldl (fun a b => (a.1 + b.1, a.2.1 + b.2.1, dsum a.2.2 b.2.2 a.1 a.2.1 b.1 b.2.1)) acc
+
 /-- `A^p` for the `n × n` leading block of `a`, tabulated at every step (`A^0 = I`,
 `A^(p+1) = A^p · A`) so that evaluation is polynomial -/
 def powTab (a : Fn α) (n : Nat) : Nat → Array (Array α)
